@@ -42,7 +42,7 @@ CLAIMS = {
             "imported and prior value", "I.4 C10"),
     "C11": ("Theorems C11_export_faithful (the exported record is exactly the highest signed slot / source / target, for every well-formed "
             "history), C11_export_import_same_decisions (export -> import into an empty instance preserves every record, and equal records "
-            "answer every later history identically), C11_restart_identity, C11_codec (record format round trip for all int64 values; legacy "
+            "answer every later history identically), C11_restart_identity, C11_codec and C11_codec_inverse (record format round trip in both directions for all int64 values, encoding injective; legacy "
             "records through a gob oracle); correspondence on raw record bytes, the real binary's export and import, identical probes on "
             "original and re-imported stores, restart, and legacy records produced by Go's gob encoder", "I.4 C11"),
     "C07": ("Theorems C07_check_spec (the loop-shaped permission check equals its declarative first-bearing-item specification), "
